@@ -27,13 +27,16 @@ type Stream struct {
 	Proto                            uint16
 	FTime, LTime                     int64 // absolute ns
 	Seed                             uint64
+	// Dense: payload timeline in which most elements occur at most positions (long THEN chains
+	// complete, and what decides the answer is the single element that is missing somewhere)
+	Dense bool
 }
 
 type Env map[string]*Stream // sub-query name -> stream ("" = the stream under test)
 
 func (s *Stream) String() string {
-	return fmt.Sprintf("{id:%d cport:%d sport:%d cbytes:%d sbytes:%d chost:%x shost:%x proto:%d ftime:%d ltime:%d seed:%d}",
-		s.ID, s.CPort, s.SPort, s.CBytes, s.SBytes, s.CHost, s.SHost, s.Proto, s.FTime, s.LTime, s.Seed)
+	return fmt.Sprintf("{id:%d cport:%d sport:%d cbytes:%d sbytes:%d chost:%x shost:%x proto:%d ftime:%d ltime:%d seed:%d dense:%v}",
+		s.ID, s.CPort, s.SPort, s.CBytes, s.SBytes, s.CHost, s.SHost, s.Proto, s.FTime, s.LTime, s.Seed, s.Dense)
 }
 
 func (e Env) String() string {
@@ -71,6 +74,20 @@ func (s *Stream) Tag(name string) (bool, bool) {
 // *search* semantics: a later start position can only lose matches).
 func (s *Stream) Step(key string, pos int) (int, bool) {
 	h := mix(s.Seed ^ hkey("step:"+key))
+	if s.Dense {
+		// 12 positions, an element occurs at a position with probability 7/8 — except that one
+		// element in four stops occurring from some position on; occurrences have length 0 or 1
+		occ := h | (h >> 20) | (h >> 40)
+		if (h>>60)&3 == 0 {
+			occ &= (uint64(1) << ((h >> 56) & 15)) - 1
+		}
+		for start := pos; start < 12; start++ {
+			if start >= 0 && (occ>>uint(start))&1 == 1 {
+				return start + int((h>>uint(12+start))&1), true
+			}
+		}
+		return 0, false
+	}
 	for start := pos; start < 6; start++ {
 		if start >= 0 && (h>>uint(start))&1 == 1 {
 			return start + int((h>>uint(8+2*start))&3)%3, true
@@ -897,6 +914,7 @@ func Envs(e *Expr, r *lib.RNG, n int, ref int64) []Env {
 		}
 		s := &Stream{ID: pickNum(), CPort: pickNum(), SPort: pickNum(), CBytes: pickNum(), SBytes: pickNum(),
 			CHost: pickHost(size), SHost: pickHost(size), Proto: uint16(r.Intn(4)), Seed: r.U64()}
+		s.Dense = r.Chance(1, 3)
 		a, b := pickTime(), pickTime()
 		if a > b {
 			a, b = b, a
